@@ -410,6 +410,11 @@ func (p *Pollard) Verify(delHashes []Hash, proof Proof, remember bool) error {
 			len(proof.Targets), len(delHashes))
 	}
 
+	err := checkProofSanity(p.NumLeaves, proof)
+	if err != nil {
+		return err
+	}
+
 	_, rootCandidates, err := calculateHashes(p.NumLeaves, delHashes, proof)
 	if err != nil {
 		return err
